@@ -115,4 +115,107 @@ func runEngineZ2(p *Prog, o *obls) {
 		}
 	}
 	o.ok("Z2", "inspected", "-", fmt.Sprintf("%d function(s) that serve channels in more than one select", n))
+	// (b) a case is not switched off: the channel a blocking select receives from, where it is a channel that other code
+	// blocks on sending to, is the field itself on every path — not a local copy that a branch sets to nil (the "nil
+	// channel is never selected" idiom): the senders keep blocking on a channel that nobody serves any more.
+	// (c) the goroutine that serves a channel does not block on sending to it: a function that receives from a channel
+	// field in a select does not itself (directly or through repository functions it calls, to depth two) perform a
+	// blocking send on that channel — with the only receiver busy sending, a full buffer is a deadlock.
+	nb, nc := 0, 0
+	for _, fn := range p.Funcs {
+		if fn.Blocks == nil || !p.InUniverse(fn) {
+			continue
+		}
+		var offs, selfs []string
+		recvd := map[*types.Var]string{}
+		instrsOf(fn, func(in ssa.Instruction) {
+			s, ok := in.(*ssa.Select)
+			if !ok || !s.Blocking {
+				return
+			}
+			for _, st := range s.States {
+				if st.Dir != types.RecvOnly {
+					continue
+				}
+				if fv, k := chanField(st.Chan); fv != nil {
+					recvd[fv] = k
+					continue
+				}
+				// a φ (or a local cell) that is the field on one path and nil on another
+				var fromField string
+				hasNil := false
+				seen := map[ssa.Value]bool{}
+				var walk func(v ssa.Value)
+				walk = func(v ssa.Value) {
+					if seen[v] {
+						return
+					}
+					seen[v] = true
+					if isNilConst(v) {
+						hasNil = true
+						return
+					}
+					if fv, k := chanField(v); fv != nil && sentTo[fv] != "" {
+						fromField = k
+						return
+					}
+					if phi, ok := v.(*ssa.Phi); ok {
+						for _, e := range phi.Edges {
+							walk(e)
+						}
+					}
+				}
+				walk(st.Chan)
+				if hasNil && fromField != "" {
+					offs = append(offs, fmt.Sprintf("the select at %s receives from a local copy of %s that a branch sets to nil", p.instrPos(s), fieldName(fromField)))
+				}
+			}
+		})
+		if len(offs) > 0 {
+			nb++
+			sort.Strings(offs)
+			o.bad("Z2", funcKey(fn)+":switched-off", strings.Fields(strings.SplitN(offs[0], " select at ", 2)[1])[0], strings.Join(dedupe(offs), "; ")+": from then on nothing serves the channel, and everything that blocks on sending to it waits for Close")
+		}
+		if len(recvd) == 0 {
+			continue
+		}
+		visited := map[*ssa.Function]bool{fn: true}
+		var scan func(g *ssa.Function, d int, via string)
+		scan = func(g *ssa.Function, d int, via string) {
+			instrsOf(g, func(in ssa.Instruction) {
+				switch x := in.(type) {
+				case *ssa.Send:
+					if fv, k := chanField(x.Chan); fv != nil && recvd[fv] != "" {
+						selfs = append(selfs, fmt.Sprintf("%s is sent to at %s%s", fieldName(k), p.instrPos(x), via))
+					}
+				case *ssa.Select:
+					if !x.Blocking {
+						return
+					}
+					for _, st := range x.States {
+						if st.Dir == types.SendOnly {
+							if fv, k := chanField(st.Chan); fv != nil && recvd[fv] != "" {
+								selfs = append(selfs, fmt.Sprintf("%s is sent to at %s%s", fieldName(k), p.instrPos(x), via))
+							}
+						}
+					}
+				case *ssa.Call:
+					if sc := x.Call.StaticCallee(); sc != nil && d < 2 && p.InUniverse(sc) && sc.Blocks != nil && !visited[sc] {
+						visited[sc] = true
+						scan(sc, d+1, fmt.Sprintf(" (reached through the call at %s)", p.instrPos(x)))
+					}
+				}
+			})
+		}
+		scan(fn, 0, "")
+		nc++
+		key := funcKey(fn) + ":no-self-send"
+		if len(selfs) > 0 {
+			sort.Strings(selfs)
+			o.bad("Z2", key, p.Pos(fn.Pos()), fmt.Sprintf("this function is the one that receives from the channel, and %s by the same goroutine: with a request already waiting the send blocks, and the only receiver is the blocked sender", strings.Join(dedupe(selfs), "; ")))
+		} else {
+			o.ok("Z2", key, p.Pos(fn.Pos()), "the serving function performs no blocking send on a channel it receives from")
+		}
+	}
+	o.ok("Z2", "serving-inspected", "-", fmt.Sprintf("%d serving function(s), %d with a case that can be switched off", nc, nb))
 }
